@@ -1,12 +1,165 @@
-(* Props/C09.v -- property C09 (provisional instances through the generated divisor flag; the general theorems are being added) *)
-From Coq Require Import ZArith QArith List.
-From RP Require Import Gen.GenFixes Model.RegretMatching.
+(* Props/C09.v -- property C09: regret matching with a floor (Profile::policy_vector).
+   Model: Model/RegretMatching.v (policy_vector_Q, regret_matching); vocabulary: Spec/C09Spec.v
+     divisor t       = inject_Z (Z.max t 1)               the repaired divisor epochs.max(1)
+     cum_regret t r  = r / divisor t                      cumulated regret
+     floored eps t r = qmax (cum_regret t r) eps          floored at eps = POLICY_MIN
+     floored_vec, pos_vec  = map of floored / of qpos (cum_regret t .)
+     qsum l = fold_left Qplus l 0,  qlen rs = inject_Z (Z.of_nat (length rs)).
+   All theorems hold for every epoch counter t : Z (so in particular for all t >= 0, t = 0
+   included: the divisor is Z.max t 1 >= 1) and every floor eps > 0; hypotheses that the proofs do
+   not need (0 <= t, and rs <> [] where it is not needed) are omitted, which only strengthens the
+   statements.  Examples for the hypotheses: Proofs/C09_Examples.v. *)
+From Coq Require Import ZArith QArith Qabs List Bool.
+From RP Require Import Gen.GenLib Gen.GenFixes Model.RegretMatching Spec.C09Spec.
+From RP Require Proofs.C09_Sums Proofs.C09_Policy Proofs.C09_Examples.
 Import ListNotations.
-Open Scope Q_scope.
-(* a freshly loaded profile (epoch counter 0) with a positive stored regret: a valid strategy, not an abort *)
-Theorem C09_epoch_zero_instance :
-  match policy_vector_Q (1#1000000) 0 [5; -1] with
-  | Some [a; b] => a + b == 1 /\ 0 < b /\ b < a
-  | _ => False end.
-Proof. vm_compute. repeat split; reflexivity. Qed.
-Print Assumptions C09_epoch_zero_instance.
+Local Open Scope Q_scope.
+
+(* the code's floor POLICY_MIN (generated) is positive, so the theorems below apply to it *)
+Theorem C09_policy_min_positive : 0 < fconst_Q POLICY_MIN.
+Proof. exact C09_Policy.policy_min_positive. Qed.
+Print Assumptions C09_policy_min_positive.
+
+(* the assertions of policy_vector never fire (t = 0 included); uses the generated flag = true *)
+Theorem C09_no_abort : forall eps t rs, 0 < eps ->
+  exists p, policy_vector_Q eps t rs = Some p /\ length p = length rs.
+Proof. exact C09_Policy.no_abort. Qed.
+Print Assumptions C09_no_abort.
+
+(* the result is a probability distribution with full support *)
+Theorem C09_distribution : forall eps t rs p, 0 < eps -> rs <> [] ->
+  policy_vector_Q eps t rs = Some p ->
+  Forall (fun x => 0 < x /\ x <= 1) p /\ fold_left Qplus p 0 == 1.
+Proof. exact C09_Policy.distribution. Qed.
+Print Assumptions C09_distribution.
+
+(* entry a is max(R_a / max(t,1), eps) / sum_b max(R_b / max(t,1), eps) *)
+Theorem C09_formula : forall eps t rs p a, 0 < eps ->
+  policy_vector_Q eps t rs = Some p -> (a < length rs)%nat ->
+  nth a p 0 == floored eps t (nth a rs 0) / qsum (floored_vec eps t rs).
+Proof. exact C09_Policy.formula. Qed.
+Print Assumptions C09_formula.
+
+(* the same, as a Leibniz equality of vectors *)
+Theorem C09_formula_vec : forall eps t rs p, 0 < eps ->
+  policy_vector_Q eps t rs = Some p ->
+  p = map (fun r => floored eps t r / qsum (floored_vec eps t rs)) rs.
+Proof. exact C09_Policy.formula_vec. Qed.
+Print Assumptions C09_formula_vec.
+
+(* no cumulated regret exceeds the floor: the uniform strategy *)
+Theorem C09_uniform : forall eps t rs p a, 0 < eps ->
+  (forall r, In r rs -> cum_regret t r <= eps) ->
+  policy_vector_Q eps t rs = Some p -> (a < length rs)%nat ->
+  nth a p 0 == 1 # Pos.of_nat (length rs).
+Proof. exact C09_Policy.uniform. Qed.
+Print Assumptions C09_uniform.
+
+(* in particular when no regret is positive; this is regret_matching's uniform case *)
+Theorem C09_uniform_no_positive : forall eps t rs p a, 0 < eps ->
+  (forall r, In r rs -> r <= 0) ->
+  policy_vector_Q eps t rs = Some p -> (a < length rs)%nat ->
+  nth a p 0 == 1 # Pos.of_nat (length rs) /\ nth a p 0 == nth a (regret_matching rs) 0.
+Proof. exact C09_Policy.uniform_no_positive. Qed.
+Print Assumptions C09_uniform_no_positive.
+
+(* x_a <= c_a <= x_a + eps and X <= C <= X + n * eps
+   (c = floored values, x = positive parts of the cumulated regrets, C, X their sums) *)
+Theorem C09_floor_bounds : forall eps t rs, 0 <= eps ->
+  (forall r, qpos (cum_regret t r) <= floored eps t r /\
+             floored eps t r <= qpos (cum_regret t r) + eps) /\
+  qsum (pos_vec t rs) <= qsum (floored_vec eps t rs) /\
+  qsum (floored_vec eps t rs) <= qsum (pos_vec t rs) + qlen rs * eps.
+Proof. exact C09_Policy.floor_bounds. Qed.
+Print Assumptions C09_floor_bounds.
+
+(* | p_a - x_a / X | <= n * eps / X  when X = sum of positive parts > 0 *)
+Theorem C09_proportional : forall eps t rs p a, 0 < eps ->
+  0 < qsum (pos_vec t rs) ->
+  policy_vector_Q eps t rs = Some p -> (a < length rs)%nat ->
+  Qabs (nth a p 0 - qpos (cum_regret t (nth a rs 0)) / qsum (pos_vec t rs))
+    <= qlen rs * eps / qsum (pos_vec t rs).
+Proof. exact C09_Policy.proportional. Qed.
+Print Assumptions C09_proportional.
+
+(* x_a / X is the textbook regret-matching entry (the epoch normalisation cancels) *)
+Theorem C09_regret_matching_nth : forall t rs a,
+  (exists r, In r rs /\ 0 < r) -> (a < length rs)%nat ->
+  nth a (regret_matching rs) 0 == qpos (cum_regret t (nth a rs 0)) / qsum (pos_vec t rs).
+Proof. exact C09_Policy.regret_matching_nth. Qed.
+Print Assumptions C09_regret_matching_nth.
+
+(* hence the strategy is regret matching up to n * eps / X *)
+Theorem C09_close_to_regret_matching : forall eps t rs p a, 0 < eps ->
+  (exists r, In r rs /\ 0 < r) ->
+  policy_vector_Q eps t rs = Some p -> (a < length rs)%nat ->
+  Qabs (nth a p 0 - nth a (regret_matching rs) 0) <= qlen rs * eps / qsum (pos_vec t rs).
+Proof. exact C09_Policy.close_to_regret_matching. Qed.
+Print Assumptions C09_close_to_regret_matching.
+
+(* limit form eps = 0: exactly regret_matching when some regret is positive *)
+Theorem C09_limit_regret_matching : forall t rs, (exists r, In r rs /\ 0 < r) ->
+  exists p, policy_vector_Q 0 t rs = Some p /\ length p = length rs /\
+    forall a, (a < length rs)%nat -> nth a p 0 == nth a (regret_matching rs) 0.
+Proof. exact C09_Policy.limit_regret_matching. Qed.
+Print Assumptions C09_limit_regret_matching.
+
+(* the epoch normalisation cancels in the unfloored ratios (any positive divisors) *)
+Theorem C09_scale_invariant : forall d1 d2 r rs, 0 < d1 -> 0 < d2 ->
+  (r / d1) / qsum (map (fun b => b / d1) rs) == (r / d2) / qsum (map (fun b => b / d2) rs).
+Proof. exact C09_Policy.scale_invariant. Qed.
+Print Assumptions C09_scale_invariant.
+
+Theorem C09_scale_invariant_pos : forall d1 d2 r rs, 0 < d1 -> 0 < d2 ->
+  qpos (r / d1) / qsum (map (fun b => qpos (b / d1)) rs) ==
+  qpos (r / d2) / qsum (map (fun b => qpos (b / d2)) rs).
+Proof. exact C09_Policy.scale_invariant_pos. Qed.
+Print Assumptions C09_scale_invariant_pos.
+
+Theorem C09_scale_invariant_epochs : forall t1 t2 r rs,
+  cum_regret t1 r / qsum (map (cum_regret t1) rs) ==
+  cum_regret t2 r / qsum (map (cum_regret t2) rs).
+Proof. exact C09_Policy.scale_invariant_epochs. Qed.
+Print Assumptions C09_scale_invariant_epochs.
+
+(* policy_vector_with is the model with the flag as a parameter *)
+Theorem C09_policy_vector_with_generated :
+  policy_vector_with_Q REGRET_DIVISOR_AT_LEAST_ONE = policy_vector_Q.
+Proof. exact C09_Policy.policy_vector_with_Q_generated. Qed.
+Print Assumptions C09_policy_vector_with_generated.
+
+(* the original divisor aborts on a fresh profile as soon as one regret is positive *)
+Theorem C09_unfixed_aborts : forall eps rs, (exists r, In r rs /\ 0 < r) ->
+  policy_vector_with_Q false eps 0 rs = None.
+Proof. exact C09_Policy.unfixed_aborts. Qed.
+Print Assumptions C09_unfixed_aborts.
+
+(* concrete witness: [5; -1] at t = 0 aborts without the fix; the model returns a distribution *)
+Theorem C09_needs_divisor_fix :
+  (forall eps, policy_vector_with_Q false eps 0 [5; -1] = None) /\
+  policy_vector_Q (1 # 1000) 0 [5; -1] = Some [5000 # 5001; 1000 # 5001000] /\
+  (exists p, policy_vector_Q (1 # 1000) 0 [5; -1] = Some p /\
+     Forall (fun x => 0 < x /\ x <= 1) p /\ fold_left Qplus p 0 == 1).
+Proof.
+  exact (conj C09_Examples.ex_unfixed_aborts
+           (conj C09_Examples.ex_fixed_value C09_Examples.ex_fixed_is_distribution)).
+Qed.
+Print Assumptions C09_needs_divisor_fix.
+
+(* the repair changes nothing for t >= 1, nor at t = 0 when no regret is positive *)
+Theorem C09_fix_conservative : forall eps t rs, (1 <= t)%Z ->
+  policy_vector_with_Q false eps t rs = policy_vector_Q eps t rs.
+Proof. exact C09_Policy.fix_conservative. Qed.
+Print Assumptions C09_fix_conservative.
+
+Theorem C09_fix_conservative_t0 : forall eps rs a, 0 < eps -> (forall r, In r rs -> r <= 0) ->
+  (a < length rs)%nat ->
+  exists p q, policy_vector_with_Q false eps 0 rs = Some p /\ policy_vector_Q eps 0 rs = Some q /\
+    nth a p 0 == nth a q 0.
+Proof. exact C09_Policy.fix_conservative_t0. Qed.
+Print Assumptions C09_fix_conservative_t0.
+
+(* the floor applied to the recorded regrets (regret_vector: r.max(REGRET_MIN)) *)
+Theorem C09_clamp : forall lo r, lo <= clamp lo r /\ (lo <= r -> clamp lo r == r).
+Proof. exact (fun lo r => conj (C09_Policy.clamp_ge lo r) (C09_Policy.clamp_id lo r)). Qed.
+Print Assumptions C09_clamp.
